@@ -234,6 +234,18 @@ def run_case(case):
     return out
 
 
+if req.get("probe_mp"):
+    ok = False
+    try:
+        sw = geometry.SwathDefinition(np.array([1.0, 2.0, 3.0]), np.array([1.0, 2.0, 3.0]))
+        ar = geometry.AreaDefinition("a", "a", "a", {"proj": "longlat", "datum": "WGS84"}, 3, 3, (0, 0, 4, 4))
+        a = kd_tree.resample_nearest(sw, np.array([1.0, 2.0, 3.0]), ar, 200000, nprocs=2, reduce_data=False)
+        ok = a.shape == (3, 3)
+    except Exception:
+        ok = False
+    json.dump({"cases": [], "mp_ok": ok}, sys.stdout)
+    sys.exit(0)
+
 res = []
 for case in req["cases"]:
     try:
